@@ -187,6 +187,22 @@ def sequential_results(build, orders=None):
     return out
 
 
+def sequential_finals(build):
+    """(results, final registry observation) for every serial order of an H9 harness."""
+    out = set()
+    n = len(build(None)[0])
+    for order in itertools.permutations(range(n)):
+        bodies, c = build(None)
+        res = [None] * n
+        try:
+            for i in order:
+                res[i] = render(outcome(bodies[i]))
+            out.add((tuple(res), c['final']()))
+        finally:
+            c['world'].cleanup()
+    return out
+
+
 def H1(variant):
     """flatten-family operations on one shared tree with predicate + custom nodes + instrumented keys."""
     def build(ex):
@@ -378,6 +394,66 @@ def H7(hook, other):
     return build
 
 
+def H9(op_a, op_b, hook):
+    """two operations on the SAME (type, namespace) key of a namedtuple class whose registration reaches
+    Python-level hooks (warning hook / metaclass attribute hook): the pair must behave like one of its two
+    serial orders, and afterwards the Python-visible registry must describe what flattening does."""
+    def build(ex):
+        w = World()
+        CUR[0] = None
+
+        class Meta9(type):
+            def __getattribute__(cls, name):
+                if hook == 'class-attr' and name in ('_fields', 'n_fields'):
+                    P(f'class-attr:{name}')
+                return super().__getattribute__(name)
+
+        base = namedtuple('NT9', 'a b')  # noqa: PYI024
+        NT = Meta9('NT9m', (base,), {'__slots__': ()})
+        inst = NT(Leaf(0), Leaf(1))
+        fl = lambda o: (tuple(o), 'tag9')  # noqa: E731
+        un9 = lambda m, c: NT(*c)  # noqa: E731
+
+        def showwarning(*a, **k):
+            if hook == 'warning':
+                P('showwarning')
+
+        def quiet(fn):
+            def run():
+                with warnings.catch_warnings():
+                    warnings.simplefilter('always')
+                    warnings.showwarning = showwarning
+                    r = outcome(fn)
+                return ('EXC', type(r).__name__) if isinstance(r, BaseException) else 'ok' if not isinstance(r, (bool, str, tuple)) else r
+            return run
+
+        ops = {
+            'register': quiet(lambda: optree.register_pytree_node(NT, fl, un9, namespace=w.ns)),
+            'unregister': quiet(lambda: optree.unregister_pytree_node(NT, namespace=w.ns)),
+            'get': quiet(lambda: optree.register_pytree_node.get(NT, namespace=w.ns).kind.name),
+            'flatten': quiet(lambda: optree.tree_structure(inst, namespace=w.ns).kind.name),
+        }
+        if op_a == 'unregister' or op_b == 'unregister':
+            if 'register' not in (op_a, op_b):
+                with warnings.catch_warnings():
+                    warnings.simplefilter('ignore')
+                    optree.register_pytree_node(NT, fl, un9, namespace=w.ns)
+        w.registered.append((NT, w.ns))
+
+        def final_state():
+            CUR[0] = None
+            with warnings.catch_warnings():
+                warnings.simplefilter('ignore')
+                eng = optree.tree_structure(inst, namespace=w.ns).kind.name
+                py = optree.register_pytree_node.get(NT, namespace=w.ns).kind.name
+                allpy = optree.register_pytree_node.get(namespace=w.ns).get(NT)
+            return (eng, py, 'CUSTOM' if allpy is not None else 'absent')
+
+        CUR[0] = ex
+        return [ops[op_a], ops[op_b]], {'world': w, 'kind': 'H9', 'final': final_state}
+    return build
+
+
 def H8():
     """map / unflatten whose custom unflatten re-enters optree, from two threads."""
     def build(ex):
@@ -422,6 +498,10 @@ def harnesses(tier):
     for hook in ('warning', 'class-attr', 'class-repr', 'dup-repr'):
         for other in ('flatten', 'get', 'register-other', 'unregister-cx'):
             hs.append((f'H7:{hook}|{other}', H7(hook, other), None))
+    for hook in ('warning', 'class-attr'):
+        for a, b in (('register', 'unregister'), ('register', 'register'), ('register', 'get'), ('register', 'flatten'),
+                     ('unregister', 'unregister'), ('unregister', 'flatten'), ('unregister', 'get')):
+            hs.append((f'H9:{hook}:{a}|{b}', H9(a, b, hook), None))
     if tier == 'thorough':
         hs += [
             ('H1:flatten|flatten|structure', H1(('flatten', 'flatten', 'structure')), 2),
@@ -441,6 +521,9 @@ def run_harness(ctx, name, build, bound):  # noqa: C901
     seq = None
     if not name.startswith(('H2', 'H4', 'H5', 'H7', 'H6')):
         seq = sequential_results(build)
+    seq_final = None
+    if name.startswith('H9'):
+        seq_final = sequential_finals(build)
     case_base = {'harness': name, 'crash_prefix': f'{name.split(":")[0]}:{name.split(":")[1]}'}
     first_trace = []
 
@@ -466,7 +549,7 @@ def run_harness(ctx, name, build, bound):  # noqa: C901
             if ex.deadlock:
                 ctx.violation('deadlock', key('scheduler-deadlock'), case, f'{ex.deadlock}; trace {ex.trace[-6:]}')
                 return
-            if seq is not None and res not in seq:
+            if seq is not None and not name.startswith('H9') and res not in seq:
                 ctx.violation('not-sequentially-consistent', key('result-not-equal-to-any-sequential-order'), case,
                               f'{res!r} not in {sorted(map(repr, seq))[:4]}')
             if name.startswith('H2'):
@@ -483,6 +566,15 @@ def run_harness(ctx, name, build, bound):  # noqa: C901
                 problems = check_h5(c, ex, res)
                 for p in problems:
                     ctx.violation('torn-registration', key('flatten-overlapping-registry-change'), case, p)
+            if name.startswith('H9'):
+                fin = c['final']()
+                if fin[0] == 'CUSTOM' and (fin[1] != 'CUSTOM' or fin[2] != 'CUSTOM') or fin[0] != 'CUSTOM' and (
+                        fin[1] == 'CUSTOM' or fin[2] == 'CUSTOM'):
+                    ctx.violation('registry-mirror-diverged', key('python-registry-disagrees-with-engine'), case,
+                                  f'after both operations: engine flatten kind {fin[0]}, get(cls) {fin[1]}, get()[cls] {fin[2]}')
+                elif (res, fin) not in seq_final:
+                    ctx.violation('not-sequentially-consistent', key('result-not-equal-to-any-sequential-order'), case,
+                                  f'{(res, fin)!r} not in {sorted(map(repr, seq_final))}')
             if name.startswith('H7'):
                 if res[0] != 'ok' and c.get('kind') == 'H7' and 'dup-repr' not in name:
                     ctx.violation('register-under-hook', key('register-result'), case, repr(res))
